@@ -79,6 +79,8 @@ def _classify_parts_expr(fn: FuncInfo, e: ast.expr, depth: int = 0, seen: Option
         return _classify_parts_expr(fn, e.value, depth + 1, seen)
     if isinstance(e, ast.BinOp) and isinstance(e.op, ast.Add):
         return _classify_parts_expr(fn, e.left, depth + 1, seen) | _classify_parts_expr(fn, e.right, depth + 1, seen)
+    if isinstance(e, ast.IfExp):
+        return _classify_parts_expr(fn, e.body, depth + 1, seen) | _classify_parts_expr(fn, e.orelse, depth + 1, seen)
     if isinstance(e, ast.BoolOp):
         out2: Set[str] = set()
         for v in e.values:
